@@ -516,7 +516,8 @@ TEXT = ("Held on every program observed: ~920 (quick) / ~15 000 (thorough) progr
         "(thorough) configurations (build x PYTHONHASHSEED, one process each) with identical canonical transcripts; the "
         "evidence counts programs whose internal run order differed between hash seeds while the transcript stayed "
         "equal; the ASan+UBSan build ran the same corpus with zero sanitizer reports. A clean sanitizer run is not "
-        "memory safety (red-zone tools miss intra-object overflows).")
+        "memory safety (red-zone tools miss intra-object overflows)."
+        ' Load programs (concatenated dumps with shared and conflicting pairs, overwrite on/off) are part of the corpus.')
 NOTE = ("Trusted: determinism of the generators (verified: a program generated differently in two configurations is "
         "reported as a harness failure); canonical transcript encoding. Leak detection is off (CPython arenas).")
 TECHNIQUE = "runtime monitoring: cross-configuration transcript comparison (build x hash seed, one process per configuration) + ASan/UBSan build of the Cython extension running the same corpus"
